@@ -126,15 +126,18 @@ def bed_case(rng, tier, want="roundtrip", kind=None, compress=None, zoom_mode=No
             inp.append([nm, s, e, list(r)])
         tags.append("rest=" + str(rmode or "mixed"))
         per[nm] = (items, length)
-    # keep the zoom part small: long entries under a tiny resolution make tens of thousands of records
-    # (the zoom levels themselves are C08's subject; here they only have to be present)
-    span = max(max(e for _, e in per[nm][0]) for nm in names)
+    # keep the zoom part small: long entries under a tiny resolution make tens of thousands of records,
+    # each its own section when items_per_slot is 1 (the zoom levels themselves are C08's subject; here
+    # they only have to be present)
+    total_span = sum(max(e for _, e in per[nm][0]) for nm in names)
+    limit = 300 if ips <= 3 else 1500
     if o[5] and o[5][0]:
-        if span // max(1, min(z for z in o[5][0] if z > 0) if any(z > 0 for z in o[5][0]) else 1) > 1500:
-            o[5] = [[span // 300 + 1, span // 30 + 2]]
+        pos = [z for z in o[5][0] if z > 0]
+        if pos and total_span // min(pos) > limit:
+            o[5] = [[total_span // (limit // 3) + 1, total_span // 20 + 2]]
             tags[0] = zm = "manual-scaled"
-    elif not o[5] and span // max(1, o[3]) > 1500:
-        o[3] = span // 300 + 1
+    elif not o[5] and total_span // max(1, o[3]) > limit:
+        o[3] = total_span // (limit // 3) + 1
         tags[0] = zm = "auto-scaled"
     if rng.random() < 0.3:
         sizes.append(["chrUnused", 1000])
